@@ -50,6 +50,7 @@ TraceNext ==
     \/ Is("del")        /\ Step(Delete(Ev.k))
     \/ Is("get")        /\ Step(Get(Ev.k))
     \/ Is("has")        /\ Step(Has(Ev.k))
+    \/ Is("compact")    /\ Step(Compact)
     \/ Is("iter")       /\ Step(Iterate(Ev.p, Ev.s))
     \/ Is("bput")       /\ Step(BPut(Ev.b, Ev.k, Ev.v))
     \/ Is("bdel")       /\ Step(BDelete(Ev.b, Ev.k))
